@@ -57,8 +57,9 @@ theorem crd_writer_parser_aligned :
     let L := layoutOfWidths crdParserNames crdParserWidths
     let row := rowOf "bernese_crd"
     L.length = 7 ∧ crdParserSkipHeader = 6 ∧
-    (List.zip ["number", "station", "domes", "x", "y", "z", "flag"] L).all
-      (fun p => fieldReads row p.1 true 1000 p.2.start p.2.stop) = true := by
+    (List.zip [("number", true), ("station", false), ("domes", false), ("x", true), ("y", true), ("z", true),
+        ("flag", false)] L).all
+      (fun p => fieldReads row p.1.1 p.1.2 1000 p.2.start p.2.stop) = true := by
   decide +kernel
 
 /-- Bernese CLU: station column exact; the cluster number is read as long as it has at most 7
@@ -84,7 +85,7 @@ theorem tms_ref_coordinate_aligned :
      fieldReads row "ref_pos.trs.x" true 1000 (col "ref_x") (next "ref_x") &&
      fieldReads row "ref_pos.trs.y" true 1000 (col "ref_y") (next "ref_y") &&
      fieldReads row "ref_pos.trs.z" true 1000 (col "ref_z") (next "ref_z") &&
-     fieldReads row "self.dset.meta['ref_frame']" true 1000 (col "system") (next "system")) = true := by
+     fieldReads row "self.dset.meta['ref_frame']" false 1000 (col "system") (next "system")) = true := by
   decide +kernel
 
 /-
@@ -100,13 +101,13 @@ theorem sta_writer_parser_aligned_partial :
     let f (n : String) : Nat × Nat := ((staParserFields.lookup n).getD (0, 0))
     (fieldReads row "station" false 4 (f "station").1 (f "station").2 &&
      fieldReads row "domes" false 9 (f "domes").1 (f "domes").2 &&
-     fieldReads row "date_from" true 19 (f "date_from").1 (f "date_from").2 &&
-     fieldReads row "date_to" true 19 (f "date_to").1 (f "date_to").2 &&
+     fieldReads row "date_from" false 19 (f "date_from").1 (f "date_from").2 &&
+     fieldReads row "date_to" false 19 (f "date_to").1 (f "date_to").2 &&
      fieldReads row "rcv" false 20 (f "receiver_type").1 (f "receiver_type").2 &&
-     fieldReads row "rcv_serial" true 21 (f "receiver_serial_number").1 (f "receiver_serial_number").2 &&
+     fieldReads row "rcv_serial" false 21 (f "receiver_serial_number").1 (f "receiver_serial_number").2 &&
      fieldReads row "ant" false 15 (f "antenna_type").1 (f "antenna_type").2 &&
      fieldReads row "radome" false 4 (f "radome_type").1 (f "radome_type").2 &&
-     fieldReads row "ant_serial" true 21 (f "antenna_serial_number").1 (f "antenna_serial_number").2 &&
+     fieldReads row "ant_serial" false 21 (f "antenna_serial_number").1 (f "antenna_serial_number").2 &&
      fieldReads row "north" true 9 (f "eccentricity_north").1 (f "eccentricity_north").2 &&
      fieldReads row "east" true 9 (f "eccentricity_east").1 (f "eccentricity_east").2 &&
      fieldReads row "up" true 9 (f "eccentricity_up").1 (f "eccentricity_up").2) = true := by
